@@ -103,7 +103,8 @@ impl Rule {
             }
         }
 
-        variables.sort_by(|(key_a, _), (key_b, _)| key_b.len().cmp(&key_a.len()));
+        // Longest names first; names of equal length in a fixed order (the captured markers come out of a hash map)
+        variables.sort_by(|(key_a, _), (key_b, _)| key_b.len().cmp(&key_a.len()).then_with(|| key_a.cmp(key_b)));
 
         variables
     }
